@@ -368,10 +368,8 @@ pub open spec fn permitted(e: Expression, ids: Ids, d: DocM) -> bool {
 }
 
 // ---------------------------------------------------------------- the main recursion
-// (temporarily uninterpreted pieces: the Matrix forms and the merged-search leaves of all()/of())
+// (still uninterpreted: a Matrix under all() under a nested key over an array)
 pub uninterp spec fn sem_nested_array_matrix(cols: Vec<String>, rows: Vec<Vec<Option<Expression>>>, ids: Ids, a: ArrM) -> SolverResult;
-pub uninterp spec fn sem_matrix_all(cols: Vec<String>, rows: Vec<Vec<Option<Expression>>>, ids: Ids, d: DocM) -> SolverResult;
-pub uninterp spec fn sem_matrix_of(cols: Vec<String>, rows: Vec<Vec<Option<Expression>>>, n: u64, ids: Ids, d: DocM) -> SolverResult;
 
 // members of a merged search on one field value: how many of them match `x`
 pub open spec fn member_count(kind: Search, x: Seq<char>) -> Option<(nat, nat)> {   // (matching, total)
@@ -426,7 +424,7 @@ pub open spec fn sem_all_leaf(t: Expression, ids: Ids, d: DocM) -> SolverResult
 {
     match t {
         Expression::Search(kind, f, cast) => if is_merged(kind) { sem_all_merged(kind, f@, cast, d) } else { sem3(t, ids, d) },
-        Expression::Matrix(cols, rows) => sem_matrix_all(cols, rows, ids, d),
+        Expression::Matrix(cols, rows) => rows_all_eval(cols, rows, 0, empty_cache(cols.len() as nat), ids, d, t),
         _ => sem3(t, ids, d),
     }
 }
@@ -441,7 +439,7 @@ pub open spec fn sem_of_leaf(t: Expression, n: u64, ids: Ids, d: DocM) -> Solver
         match t {
             // a single predicate is a list of one member: of(.., n) over it follows the same table (never true for n >= 2)
             Expression::Search(kind, f, cast) => if is_merged(kind) { sem_of_merged(kind, f@, cast, n, d) } else { of3(seq![sem3(t, ids, d)], n) },
-            Expression::Matrix(cols, rows) => sem_matrix_of(cols, rows, n, ids, d),
+            Expression::Matrix(cols, rows) => rows_of_eval(cols, rows, 0, empty_cache(cols.len() as nat), 0, SolverResult::Missing, n, ids, d, t),
             _ => of3(seq![sem3(t, ids, d)], n),
         }
     }
@@ -493,6 +491,47 @@ pub open spec fn rows_eval(cols: Vec<String>, rows: Vec<Vec<Option<Expression>>>
             SolverResult::Missing => rows_eval(cols, rows, j + 1, c2, acc, ids, d, parent),
         }
     }
+}
+
+// all(..) applied to a Matrix: every row must be true; the first row that is not decides
+pub open spec fn rows_all_eval(cols: Vec<String>, rows: Vec<Vec<Option<Expression>>>, j: int, cache: Seq<Option<V>>, ids: Ids, d: DocM, parent: Expression)
+    -> SolverResult
+    decreases lvl(parent), parent, 1int, rows.len() - j,
+    when forall|a: int, b: int| 0 <= a < rows.len() && 0 <= b < rows[a].len() && (#[trigger] rows[a][b]) is Some
+        ==> decreases_to!(parent => rows[a][b]->Some_0) && lvl(rows[a][b]->Some_0) <= lvl(parent)
+{
+    if j < 0 || j >= rows.len() { SolverResult::True }
+    else {
+        let (hit, c2) = row_eval(cols, rows[j], 0, cache, ids, d, parent);
+        match hit {
+            SolverResult::True => rows_all_eval(cols, rows, j + 1, c2, ids, d, parent),
+            r => r,
+        }
+    }
+}
+pub open spec fn sem_matrix_all(cols: Vec<String>, rows: Vec<Vec<Option<Expression>>>, ids: Ids, d: DocM) -> SolverResult {
+    rows_all_eval(cols, rows, 0, empty_cache(cols.len() as nat), ids, d, Expression::Matrix(cols, rows))
+}
+
+// of(.., n >= 1) applied to a Matrix: true as soon as n rows are true, else false if some row was false, else missing
+pub open spec fn rows_of_eval(cols: Vec<String>, rows: Vec<Vec<Option<Expression>>>, j: int, cache: Seq<Option<V>>, hits: nat, acc: SolverResult, n: u64, ids: Ids, d: DocM, parent: Expression)
+    -> SolverResult
+    decreases lvl(parent), parent, 1int, rows.len() - j,
+    when forall|a: int, b: int| 0 <= a < rows.len() && 0 <= b < rows[a].len() && (#[trigger] rows[a][b]) is Some
+        ==> decreases_to!(parent => rows[a][b]->Some_0) && lvl(rows[a][b]->Some_0) <= lvl(parent)
+{
+    if j < 0 || j >= rows.len() { acc }
+    else {
+        let (hit, c2) = row_eval(cols, rows[j], 0, cache, ids, d, parent);
+        match hit {
+            SolverResult::True => if hits + 1 >= n { SolverResult::True } else { rows_of_eval(cols, rows, j + 1, c2, hits + 1, acc, n, ids, d, parent) },
+            SolverResult::False => rows_of_eval(cols, rows, j + 1, c2, hits, SolverResult::False, n, ids, d, parent),
+            SolverResult::Missing => rows_of_eval(cols, rows, j + 1, c2, hits, acc, n, ids, d, parent),
+        }
+    }
+}
+pub open spec fn sem_matrix_of(cols: Vec<String>, rows: Vec<Vec<Option<Expression>>>, n: u64, ids: Ids, d: DocM) -> SolverResult {
+    rows_of_eval(cols, rows, 0, empty_cache(cols.len() as nat), 0, SolverResult::Missing, n, ids, d, Expression::Matrix(cols, rows))
 }
 
 // results of the elements of a group, in written order
